@@ -155,6 +155,7 @@ def geo_worlds(tier: str, seed: int, *, convs=W.ALL_CONVS, big: bool = True) -> 
             dict(ny=1, nx=3, shape="skew", bounds=True), dict(ny=4, nx=3, shape="skew2", bounds=False, holes=[(0, 0), (0, 1)]),
             dict(ny=3, nx=3, shape="rect", bounds=False, holes=[(1, 1)]),      # isolated interior cell without a centre
             dict(ny=4, nx=4, shape="skew", bounds=False, holes=[(1, 2)], coords_as="plain"),
+            dict(ny=3, nx=3, shape="rect", bounds=False, holes=[(1, 0), (1, 2)]),      # a cell flanked by cells without coordinates
         ]
         if not quick:
             for _ in range(8):
@@ -196,6 +197,8 @@ def geo_worlds(tier: str, seed: int, *, convs=W.ALL_CONVS, big: bool = True) -> 
             enc = encs[k % len(encs)]
             out.append(mesh_world(W.mesh_from_squares(cells, shape=["skew", "rect", "skew2"][k % 3]), enc=enc,
                                   edges=(k % 2 == 0), centres=(k % 3 == 1)))
+        # a uniform mesh (every face has the same number of nodes: no fill value anywhere), one-based, plain integers
+        out.append(mesh_world(W.mesh_from_squares([["Q", "Q", "Q"], ["Q", "Q", "Q"]], shape="skew"), enc=dict(base=1, fill="none"), edges=True))
         n_rand = 4 if quick else 25
         for k in range(n_rand):
             wd, h = (rng.randint(3, 6), rng.randint(3, 5)) if big else (rng.randint(2, 3), rng.randint(2, 3))
